@@ -85,8 +85,10 @@ MODELLED NOT VERIFIED: list.sort(key=node_index) is modelled as "filter the orig
   copying part of the cloner (fresh objects, names, shapes) — only observed by the oracle; Graph
   constructors' own checks.
 
-MUTANTS (scratch worktree /tmp/wt-C18, VERIF_REPO; all reported VIOLATION with a concrete oracle replay
-  and a broken correspondence):
+MUTANTS (scratch worktree /tmp/wt-C18, VERIF_REPO; every one breaks the correspondence; all but m4/m8 also
+  give a concrete oracle replay; m4: the unbounded region is then rejected by the cloner, still "raises", so
+  the property oracle has nothing to object to -> no-failing-input-found; m8: a listed input initializer
+  missing from the result's initializers is allowed by the weaker reading of the oracle -> ditto):
   m1 GRAPHS attribute: captures of the first graph only      caught (after raising the share of GRAPHS nodes)
   m2 last input of a >2-input node not pushed                caught
   m3 sort by original index replaced by reverse()            caught (a first variant using len(all_nodes)
